@@ -1115,6 +1115,37 @@ impl PartialEq<Vec<u16>> for Param {
     }
 }
 
+#[cfg(avt_verif)]
+impl Parser {
+    // verification hook: state, cur_param, intermediate and the parameter
+    // array up to the last entry that differs from Param::default()
+    pub fn verif_state(&self, out: &mut String) {
+        let default = Param::default();
+
+        let used = self
+            .params
+            .iter()
+            .rposition(|p| *p != default)
+            .map_or(0, |i| i + 1);
+
+        out.push_str(&format!(
+            "{} {} {} {} ",
+            self.state as u8,
+            self.cur_param,
+            self.intermediate.map_or(-1, |c| c as i64),
+            used
+        ));
+
+        for p in &self.params[..used] {
+            out.push_str(&format!("{} ", p.cur_part));
+
+            for part in &p.parts {
+                out.push_str(&format!("{} ", part));
+            }
+        }
+    }
+}
+
 #[cfg(test)]
 mod tests {
     use super::AnsiMode;
